@@ -27,6 +27,9 @@ struct Cursor {
             case M_ENTER: return !entered || (!st.empty() && st.back().pending);
             case M_NEXT: case M_LEAVE: return entered && !st.empty();
             case M_OBSERVE: return true;
+            // (positions with NO current value - document start, just after entering, after the last element - are outside C11:
+            // it speaks of the cursor being on a container or on a value of another type; the unchanged library itself moves the
+            // cursor when get_raw is called right after entering a container, see DESIGN.md section 13 round 9)
             case M_STREQ: case M_RAW: case M_TO_WRITER: return entered && !st.empty() && st.back().pos >= 0;
             case M_FIELD: case M_FIELD_ENS: return entered && !st.empty() && st.back().c->t == V_OBJ;
         }
@@ -349,6 +352,7 @@ struct NavRun {
         if (!decode(plan.doc, plan.root != 0, root)) { res.invalid_plan = true; res.detail = "document is not a valid Binson document"; return; }
         if (plan.max_depth < need_depth(root, plan.root != 0)) { res.invalid_plan = true; res.detail = "max_depth below the document's nesting"; return; }
         cur.root = &root; cur.array_root = plan.root != 0;
+        ps.lead = (int)plan.P("lead");
         ps.setup(plan.max_depth, plan.prefill, plan.doc, plan.root != 0);
         ps.guard_lookups = false;       // the model only issues lookups inside object frames
         ps.use_cb = !plan.P("nocb");
@@ -460,6 +464,9 @@ Plan nav_generate(uint64_t base, const std::string &prop, uint64_t index, int ti
     if (prop == "C07" || rd.chance(1, 5)) k.max_kids = 3 + (int)rd.below(10);
     static const int WIDE[] = {17, 33, 65, 129, 255, 256, 257, 300};
     if (rd.chance(1, tier ? 25 : 60)) k.wide = WIDE[rd.below(8)];
+    Rng rl = r.fork("layout");
+    if (rl.chance(1, prop == "C07" ? 2 : 4)) pick_name_family(rl, k);
+    if (rl.chance(1, 2)) p.par["lead"] = 1 + (int64_t)rl.below(15);     // the message does not start on an allocator boundary
     Node root;
     if (rd.chance(3, 100)) {
         root.t = p.root ? V_ARR : V_OBJ;
@@ -486,6 +493,7 @@ Plan nav_generate(uint64_t base, const std::string &prop, uint64_t index, int ti
     else if (prop == "C06") { w_raw = (int)ro.below(12); w_field = (int)ro.below(8); }     // a lookup may also be what returns the container that is entered next
     else { w_field = 15; w_ens = 4; w_raw = 8; w_tw = 6; }   // mixed corpus (C16 / C18 / C17 reuse this engine)
     if (prop != "C16" && ro.chance(1, 5)) p.par["nocb"] = 1;      // an application without a token callback
+    if (prop == "C16" && r.fork("nocb").chance(1, 4)) p.par["nocb"] = 1;   // termination without a callback to count steps: decided by the CPU-time watchdog alone
     if (prop == "C11" && ro.chance(1, 2)) p.par["extw"] = 1 + (int64_t)ro.below(2);
     int nops = 1 + (int)ro.below(tier ? 120 : 80);
     if (k.wide) { nops = k.wide + (int)ro.below(200); w_next += 200; }     // long enough to walk across the wide container
